@@ -195,11 +195,17 @@ def check_case(case, acc):
     problems = {}
     nframes = 0
     variants = []
+    tail = []
     for idx in new_frames(_TIER):
         variants.append((idx, df.iloc[idx].reset_index(drop=True)))
         if len(idx) <= 2 or len(idx) >= N:
             variants.append((idx, df.iloc[idx]))  # the rows keep their labels (not 0..n-1, repeated for repeated rows)
-    for idx, nd in variants:
+        if variant == "cat" and len(idx) <= 2:
+            nd2 = df.iloc[idx].reset_index(drop=True)
+            for col in ("f", "g", "o"):  # categoricals that only declare what occurs: other category sets (and codes) from frame to frame
+                nd2[col] = nd2[col].cat.remove_unused_categories()
+            tail.append((idx, nd2))  # evaluated one after the other: same number of categories, other members
+    for idx, nd in variants + tail:
         nframes += 1
         for which, M, train in mats:
             acc.calls += 1
